@@ -47,6 +47,15 @@ def run_slp_case(rng, tier, case):
     import eaopack.stoch_lin_prog as SLP
     from ..spec import build
     spec = gen.strip_private(gen.gen_lp_portfolio(rng, grid_kw={'steps': (6, 18)}, types=('contract', 'transport', 'transport', 'storage', 'multi', 'multi'), n_assets=(2, 5), n_nodes=(2, 3)))
+    g_ = spec['grid']; f_ = gen.UNIT_F[g_['unit']]
+    if rng.random() < 0.4 and g_['freq'] in gen.COARSE_OF:
+        # an asset whose own coarser steps reach from the present into the future (its variable exists once, not once per scenario)
+        lv = float(gen.pick(rng, [2., -1.5]))
+        spec['assets'].append({'type': 'SimpleContract', 'name': 'co_fix', 'nodes': [spec['assets'][0]['nodes'][0]], 'min_cap': lv * f_, 'max_cap': lv * f_, 'freq': gen.pick(rng, gen.COARSE_OF[g_['freq']]), 'wacc': 0.})
+        case.feature('slp_coarse_asset')
+    if rng.random() < 0.3:
+        spec['assets'].append(gen.strip_private(gen.gen_orderbook(rng, g_, 'ob', spec['assets'][0]['nodes'][0])))
+        case.feature('slp_orderbook')
     case.feature('slp')
     for t in gen.asset_types(spec):
         case.feature('type:' + t)
@@ -71,7 +80,7 @@ def run_slp_case(rng, tier, case):
 
 
 def run_case(rng, tier, case):
-    if rng.random() < 0.07:
+    if rng.random() < 0.1:
         return run_slp_case(rng, tier, case)
     if rng.random() < 0.04:
         spec = fixed_only_spec(rng)
